@@ -26,6 +26,12 @@ type Connection struct {
 	beginClosingOnce  sync.Once
 	finishClosingOnce sync.Once
 	didInit           bool
+
+	// closed by the read loop once the acknowledgement of the first successful init has been
+	// queued: the write loop's keep-alives start then, so that nothing but a connection error
+	// ever precedes the acknowledgement
+	initialized     chan struct{}
+	initializedOnce sync.Once
 }
 
 // ConnectionHandler methods may be invoked on a separate goroutine, but invocations will never be
@@ -67,6 +73,7 @@ func (c *Connection) Serve(conn *websocket.Conn) {
 	c.close = make(chan struct{})
 	c.closeReceived = make(chan struct{})
 	c.closeMessage = make(chan []byte, 1)
+	c.initialized = make(chan struct{})
 	conn.SetCloseHandler(func(code int, text string) error {
 		select {
 		case <-c.closeReceived:
@@ -169,7 +176,9 @@ func (c *Connection) handleMessage(ctx context.Context, data []byte) {
 		}); err != nil {
 			c.Handler.LogError(errors.Wrap(err, "unable to send graphql-transport-ws connection ack"))
 			c.beginClosing(websocket.CloseInternalServerErr, "ack send error")
+			return
 		}
+		c.initializedOnce.Do(func() { close(c.initialized) })
 	case MessageTypeSubscribe:
 		if !c.didInit {
 			return
@@ -230,15 +239,22 @@ func (c *Connection) writeLoop() {
 
 	defer c.conn.Close()
 
-	keepAliveTicker := time.NewTicker(15 * time.Second)
-	defer keepAliveTicker.Stop()
+	// the keep-alive ticker is started by the acknowledgement of the init
+	var keepAlive <-chan time.Time
+	initialized := c.initialized
 
 	for {
 		var msg *websocket.PreparedMessage
 		select {
+		case <-initialized:
+			initialized = nil
+			keepAliveTicker := time.NewTicker(15 * time.Second)
+			defer keepAliveTicker.Stop()
+			keepAlive = keepAliveTicker.C
+			continue
 		case outgoing := <-c.outgoing:
 			msg = outgoing
-		case <-keepAliveTicker.C:
+		case <-keepAlive:
 			msg = keepAlivePreparedMessage
 		case msg := <-c.closeMessage:
 			// make sure we send any outgoing messages before closing (e.g. to make sure we send
